@@ -100,6 +100,32 @@ def run(tier, seed, replay=None):
         if v[2] and v[2] > 3000:
             rep.nontrivial.add(cid)
         rep.sample({"case": cid, "runs": len(d), "tokens_hash": v[0], "tokens_len": v[2]})
+    # a sample through the real cargo-typify binary: its own file reader, two processes x two key orders
+    try:
+        from . import c15
+        c15.build_cli()
+        cli_dir = util.workdir(PROP, "cli")
+        sample_ids = [cid for cid, d in digests.items() if cid.startswith("fx_") and
+                      not any(str(v[0]).startswith("status:") for v in d.values())][:6 if tier == "quick" else 20]
+        for cid in sample_ids:
+            outs = set()
+            for p_ in range(2):
+                doc = doc_of[cid] if p_ == 0 else permute(copy.deepcopy(doc_of[cid]), util.rng(seed, PROP, "cliperm", cid))
+                path = os.path.join(cli_dir, "%s_%d.json" % (cid, p_))
+                with open(path, "w") as f:
+                    json.dump(doc, f, indent=None if p_ else 2)
+                for k_ in range(2):
+                    rc, so, se, dt = util.run([c15.CLI_BIN, "typify", path, "-o", "-"], cwd=cli_dir, timeout=300)
+                    rep.evaluations += 1
+                    outs.add((rc, util.sha(so)))
+            if len(outs) > 1:
+                rep.violation("cli_output_differs", "across processes / key orders", {"case": cid, "outputs": sorted(map(str, outs))},
+                              case={"id": cid, "settings": {}, "history": [{"op": "root", "schema": doc_of[cid]}]})
+            else:
+                rep.count("cli_identical")
+    except Exception as e:   # the CLI sample is a second observer; its absence is not a verdict
+        rep.count("cli_sample_unavailable")
+        util.log("[C12] CLI sample skipped: %s" % str(e)[:200])
     rep.notes["K_processes"] = K
     rep.notes["P_permutations"] = P
     return rep.finish(util.Findings(PROP, {}), min_nontrivial=20)
